@@ -328,11 +328,12 @@ def _check_tree_row(r, agg):
                     {"filter": text, "spec_shape": r["shape"], "impl_shape": shape, "impl_leaves": repr(leaves)[:300]})
             continue
         leaf_pos = [i for i, s in enumerate(shape) if s == "a"]
-        # the second rendering compiled to the same tree (just compared): its root is enough
-        use_nodes = nodes if rend == "min" else nodes[:1]
+        # every node on fresh entries; the root on thawed / re-imported entries and for the second rendering
+        # (which compiled to the same tree, just compared)
         for ei, e in enumerate(entries):
-            want = ["T" if b else "F" for b in r["vals"][ei]][:len(use_nodes)]
             for stage in (stages_for(e) if rend == "min" else ("fresh",)):
+                use_nodes = nodes if (rend == "min" and stage == "fresh") else nodes[:1]
+                want = ["T" if b else "F" for b in r["vals"][ei]][:len(use_nodes)]
                 st, ent = staged_cached((_HDR_KEY, ei), e, stage)
                 if st != "ok":
                     agg.add("freeze/export/import of a generated entry raised", {"kind": "stage-raises", "stage": stage, "entry_kind": e["kind"]},
@@ -344,7 +345,7 @@ def _check_tree_row(r, agg):
                     if [g[0] for g in got] == want:
                         continue
                     bad_leaves = [k for k, p in enumerate(leaf_pos) if p < len(got) and got[p][0] != want[p]]
-                    if rend != "min":
+                    if len(use_nodes) == 1 and len(nodes) > 1:
                         # diagnose through the atoms on their own
                         lres = [verdict(compiled(atom_text(a))[1], ent, sc) for a in r["leaves"]]
                         lwant = ["T" if r["vals"][ei][p] else "F" for p in leaf_pos]
@@ -1170,7 +1171,7 @@ def run(chk: Check):
         _machine(chk, agg, 2, 4, 6, "{1,2,3,4}", "{1,2,3,4,5,6,7}", "W2")
         _machine(chk, agg, 1, 3, 6, "{1,2,4}", "{1,2,4,5,7}", "W1")
     else:
-        _machine(chk, agg, 2, 4, 8, "{1,2,3,4}", "{1,2,3,4,5,6,7}", "W2")
+        _machine(chk, agg, 2, 4, 9, "{1,2,3,4}", "{1,2,3,4,5,6,7}", "W2")
         _machine(chk, agg, 1, 4, 7, "{1,2,3,4}", "{1,2,3,4,5,6,7}", "W1")
         _machine(chk, agg, 3, 5, 7, "{1,2,4}", "{1,2,4,5,6}", "W3")
     lap("machine")
